@@ -174,6 +174,15 @@ def run(rep, tier, seed):
         rep.known_finding(f'F14 class: {nf14} runs in this corpus contain such an application (the faithful model performs it identically)')
     stats['runs_with_F14_application'] = nf14
     stats.update(bstats)
+    # runs all of whose applications carry a certificate of the verified symbolic rule checker: for these the
+    # hypothesis of C02_outcome_sound_given_rules holds by C03_apps_certified_valid, i.e. the verdict is a theorem
+    cert, cstats = C03.certify(allapps, tier)
+    perprog = {}
+    for a in allapps:
+        perprog.setdefault(a[1], []).append(cert[a[0]] == 'complete')
+    stats['programs_applying_rules'] = len(perprog)
+    stats['programs_with_every_application_certified (verdicts proved, not only tested)'] = sum(1 for v in perprog.values() if all(v))
+    stats.update({'rules_distinct': cstats['rules_distinct'], 'rules_certified_all_counts': cstats['rules_certified_all_counts']})
     kinds = {}
     napp = 0
     for cid, p, lim in cs:
